@@ -12,7 +12,7 @@
 EXTENDS Ordering, TLC, Json, SequencesExt
 CONSTANT MaxParts, OutFile
 Ords == {-1000000, -1, 0, 1, 1000000}
-P == [cls : Classes, ord : Ords]
+P == [cls : Classes, ord : Ords] \cup {Marked}
 Cases == UNION {[1..k -> P] : k \in 0..MaxParts}
 ASSUME ndJsonSerialize(OutFile, SetToSeq({[parts |-> c] : c \in Cases}))
 
